@@ -328,11 +328,18 @@ func (E *Engine) prepare2(hyps []*Term, goal *Term, hints map[string][]*Term) (g
 			}
 			prio := map[string][]string{}
 			for _, bn := range names {
+				if hs := hints[baseName(bn)]; len(hs) > 0 && strings.HasPrefix(baseName(bn), "t") && len(baseName(bn)) == 2 {
+					// binders with dedicated hints (tb, tp, ...): only the hinted instances
+					per[bn] = map[string]*Term{}
+				}
 				for _, ht := range hints[baseName(bn)] {
 					per[bn][ht.String()] = ht
 					prio[bn] = append(prio[bn], ht.String())
 				}
 				for sn, sv := range skolems {
+					if hs := hints[baseName(bn)]; len(hs) > 0 && strings.HasPrefix(baseName(bn), "t") && len(baseName(bn)) == 2 {
+						break
+					}
 					per[bn][sv.String()] = sv
 					if baseName(sn) == baseName(bn) {
 						prio[bn] = append(prio[bn], sv.String())
